@@ -1,12 +1,20 @@
 """Implementation-side operations for the codec correspondence (KCodec):
 the real urllib.parse functions and the real UTF-8/surrogateescape codec of the
-interpreter pygopherd runs under.  bytes cross JSON as latin-1 strings, str
-(possibly with lone surrogates) as is; None stands for UnicodeEncodeError."""
+interpreter pygopherd runs under.  bytes cross JSON as latin-1 strings; a str
+that may hold arbitrary surrogates crosses as a list of code points (JSON would
+merge an adjacent high+low surrogate pair into one astral character); None
+stands for UnicodeEncodeError."""
 import urllib.parse
 
 
 def register(OPS, drv):
     b2s, s2b = drv.b2s, drv.s2b
+
+    def S(cps):
+        return "".join(map(chr, cps))
+
+    def L(s):
+        return [ord(c) for c in s]
 
     def op_codec(job):
         fn = job["fn"]
@@ -25,25 +33,25 @@ def register(OPS, drv):
         elif fn == "quote_bytes_via_quote":   # quote(bytes) as gemini/spartan call it: [b]
             for x in ins:
                 out.append(urllib.parse.quote(s2b(x)))
-        elif fn == "encode":
-            for s in ins:
+        elif fn == "encode":         # code point list -> bytes | None
+            for s in map(S, ins):
                 try:
                     out.append(b2s(s.encode("utf-8", "surrogateescape")))
                 except UnicodeEncodeError:
                     out.append(None)
-        elif fn == "quote_str":      # [safe(str), s]
+        elif fn == "quote_str":      # [safe(code points), s(code points)]
             for safe, s in ins:
                 try:
-                    out.append(urllib.parse.quote(s, safe=safe, errors="surrogateescape"))
+                    out.append(urllib.parse.quote(S(s), safe=S(safe), errors="surrogateescape"))
                 except UnicodeEncodeError:
                     out.append(None)
-        elif fn == "unquote_ascii":  # ASCII str -> [unquote_to_bytes, unquote]
+        elif fn == "unquote_ascii":  # ASCII str -> [unquote_to_bytes, unquote as code points]
             for s in ins:
                 out.append([b2s(urllib.parse.unquote_to_bytes(s)),
-                            urllib.parse.unquote(s, errors="surrogateescape")])
-        elif fn == "unquote_any":
-            for s in ins:
-                out.append(urllib.parse.unquote(s, errors="surrogateescape"))
+                            L(urllib.parse.unquote(s, errors="surrogateescape"))])
+        elif fn == "unquote_any":    # code point list -> code point list
+            for s in map(S, ins):
+                out.append(L(urllib.parse.unquote(s, errors="surrogateescape")))
         elif fn == "unquote_to_bytes":   # bytes -> bytes
             for x in ins:
                 out.append(b2s(urllib.parse.unquote_to_bytes(s2b(x))))
